@@ -76,6 +76,26 @@ def modelledWrites : List ((String × String) × String) := [
 
 def isModelled (w : OptWrite) : Bool := modelledWrites.any fun m => m.1 == (w.path, w.var)
 
+/-! ### tests of whether an option was GIVEN (table (f), Gen/C19Changed.lean) -/
+
+/-- one `Flags().Changed("flag")` (or `.Flag("flag").Changed`) in the body of a command -/
+structure ChangedSite where
+  path : String
+  flag : String
+  file : String
+  deriving DecidableEq, Repr
+
+/-- the `Changed` tests that are accounted for: (command, flag) ↦ the model of that command's
+    cascade and the recorded finding (each of them makes "omitted" differ from "documented default
+    spelled out" in some context; none is harmless) -/
+def accountedChanged : List ((String × String) × String) := [
+  (("gotree rename", "regexp"), "Rename.renameMode — finding F45 RenameRegexpGiven"),
+  (("gotree rename", "replace"), "Rename.renameMode — finding F45 RenameRegexpGiven"),
+  (("gotree brlen setrand", "min-mean"), "Setrand.meanRange — finding F55 SetrandMeanRangeGiven"),
+  (("gotree brlen setrand", "max-mean"), "Setrand.meanRange — finding F55 SetrandMeanRangeGiven")]
+
+def isAccounted (c : ChangedSite) : Bool := accountedChanged.any fun m => m.1 == (c.path, c.flag)
+
 def defaultFreqMin : Rat := 1 / 2
 def defaultPrefix : String := "prefix"
 
